@@ -305,6 +305,26 @@ func vrTagDeleteKeepsReferrer() string {
 	return ""
 }
 
+// filtered referrers (C07): every answer to a filtered request announces the filter, also when it comes from the page cache
+func vrReferrersFilterAnnounced() string {
+	tr := true
+	s := New(config.Config{Storage: config.ConfigStorage{StoreType: config.StoreMem}, API: config.ConfigAPI{DeleteEnabled: &tr, PushEnabled: &tr}})
+	defer s.Close()
+	sd, sraw := vrPushImage(s, "repo", "subject", "s")
+	subj := types.Descriptor{MediaType: types.MediaTypeOCI1Manifest, Digest: sd, Size: int64(len(sraw))}
+	if _, code := vrPushArtifact(s, "repo", subj, "sig", nil); code != 201 {
+		return ""
+	}
+	target := "/v2/repo/referrers/" + sd.String() + "?artifactType=application/vnd.example.sig"
+	for n := 1; n <= 3; n++ {
+		r := vrDo(s, "GET", target, nil, nil)
+		if r.code == 200 && r.hdr.Get("OCI-Filters-Applied") != "artifactType" {
+			return fmt.Sprintf("request %d of GET %s answers 200 with a filtered list but without the header OCI-Filters-Applied: artifactType (got %q); the first answer had it, the repeated one is served from the page cache", n, target, r.hdr.Get("OCI-Filters-Applied"))
+		}
+	}
+	return ""
+}
+
 func TestVerifReplay(t *testing.T) {
 	ob := os.Getenv("VERIF_OBLIGATION")
 	type probe struct {
@@ -315,6 +335,7 @@ func TestVerifReplay(t *testing.T) {
 		{"tagList", vrTagList},
 		{"manifestGet", vrManifestGetMissingBlob},
 		{"referrerAdd", vrReferrersAnnotations},
+		{"referrerGet", vrReferrersFilterAnnounced},
 		{"blobUploadMount", vrMountOutside},
 		{"manifestPut", vrManifestPutLimits},
 		{"manifestDelete", vrTagDeleteKeepsReferrer},
